@@ -933,6 +933,21 @@ class Engine:
     def ev_Dict(self, e):
         if e.keys and all(isinstance(k, ast.Constant) and isinstance(k.value, str) for k in e.keys):
             return self.new_rec([(k.value, self.ev(v)) for k, v in zip(e.keys, e.values)])
+        if any(k is None for k in e.keys) and not (self.st.spec or self.st.pure):
+            # {**a, "k": v, ..}: a new dict filled left to right (later entries win)
+            d_ = self.bi.new_dict(self, None, None)
+            for k, v in zip(e.keys, e.values):
+                if k is None:
+                    self.bi.dict_update(self, d_, self.ev(v))
+                else:
+                    kv, vv = self.ev(k), self.ev(v)
+                    t_ = self.full_ty(d_)
+                    if t_[1] is not None and t_[2] == "any" and vv.ty == "str":
+                        vv = V("any", vv.z)
+                    elif t_[1] is not None:
+                        vv = self.coerce(vv, t_[2])
+                    self.bi.dict_set(self, d_, kv, vv)
+            return d_
         if not e.keys:
             if self.st.spec or self.st.pure:
                 return V("any", atom("{}"))  # the empty dict as a value (no keys); see any.get
@@ -981,6 +996,15 @@ class Engine:
             a = self.coerce(a, b.ty)
         if b.ty == "none":
             b = self.coerce(b, a.ty)
+        if a.ty != b.ty and "any" in (a.ty, b.ty) and {a.ty, b.ty} - {"any"} <= {"int", "real", "bool", "str"}:
+            # an untyped value merged with a scalar / string (d.pop(k, 1), d.get(k, "x")): box the scalar into the untyped universe
+            other = b if a.ty == "any" else a
+            if other.ty == "str" or other.none is None:
+                boxed = V("any", other.z) if other.ty == "str" else self.coerce(other, "any")  # strings and untyped values share one representation
+                if a.ty == "any":
+                    b = boxed
+                else:
+                    a = boxed
         if a.ty != b.ty:
             if {a.ty, b.ty} <= {"int", "real", "bool"}:
                 if "real" in (a.ty, b.ty):
@@ -1218,6 +1242,9 @@ class Engine:
             if len(ai) != len(bi_):
                 return z3.BoolVal(False)
             return z3.And(*[self.eq(x, y) for x, y in zip(ai, bi_)]) if ai else z3.BoolVal(True)
+        if a.ty == "fn" and b.ty == "fn" and a.items and b.items and a.items[0] in ("class", "module") and b.items[0] in ("class", "module") and "class" in (a.items[0], b.items[0]):
+            # two classes (type(e) is SomeError): the same class iff the canonical names agree
+            return z3.BoolVal(self.bi.canon_class(self, str(a.items[1])) == self.bi.canon_class(self, str(b.items[1])))
         if a.ty == "fn" or b.ty == "fn":
             raise OutOfSubset("comparison of functions")
         if isinstance(a.ty, tuple) and a.ty[0] == "obj":
@@ -1297,6 +1324,17 @@ class Engine:
                 want = self.c.locals[tgt.id]
                 if isinstance(val.ty, tuple) and None in val.ty:
                     self.refine(val, strip_opt(want))
+                elif isinstance(val.ty, tuple) and val.ty[0] == "rec" and isinstance(parse_type(want), tuple) and strip_opt(parse_type(want))[0] == "dict" and not st.spec:
+                    # a dict literal with constant keys assigned to a local declared as a (growing) dict: build the dict key by key
+                    wt = strip_opt(parse_type(want))
+                    d_ = self.bi.new_dict(self, wt[1], wt[2])
+                    for k_, _t in val.ty[1]:
+                        key = k_.lstrip("?")
+                        fv = self.fld_read(val, key)
+                        if wt[2] == "any" and fv.ty == "str":
+                            fv = V("any", fv.z)
+                        self.bi.dict_set(self, d_, self.bi.vstr(key) if hasattr(self.bi, "vstr") else vstr(key), self.coerce(fv, wt[2]))
+                    val = d_
                 elif val.py == "none-repeat" and isinstance(strip_opt(want), tuple) and strip_opt(want)[0] == "list" and strip_opt(want)[1] != "any":
                     # [None] * n declared as list[T]: n slots holding None of type T
                     ety = strip_opt(want)[1]
